@@ -141,3 +141,20 @@ if __name__ == '__main__':
         print('rc =', rc)
     elif cmd == 'matrix':
         matrix(sys.argv[2:])
+    elif cmd == 'verifyall':
+        for n in (sys.argv[2:] or sorted(os.listdir(SEEDED))):
+            mp = os.path.join(SEEDED, n, 'meta.json')
+            if not os.path.exists(os.path.join(SEEDED, n, 'patch.diff')) or not os.path.exists(os.path.join(SEEDED, n, 'demo.py')):
+                continue
+            meta = json.load(open(mp)) if os.path.exists(mp) else {}
+            try:
+                import io, contextlib
+                buf = io.StringIO()
+                with contextlib.redirect_stdout(buf):
+                    res = verify(n)
+            except SystemExit as e:
+                res = {'confirmed': False, 'error': str(e)[:200]}
+            meta['verification'] = res
+            json.dump(meta, open(mp, 'w'), indent=1)
+            print(n, 'confirmed' if res.get('confirmed') else 'NOT CONFIRMED', res.get('error', ''))
+            sys.stdout.flush()
